@@ -75,7 +75,11 @@ class Raise:
         # String Exceptions are deprecated on Python 2.5 and
         # plain won't work at all on Python 2.6. So try to upgrade it
         # to a real exception.
-        t, v = upgradeException(t, v)
+        # (An exception class is raised as it is: looking it up by its name
+        # again would swap an application's own class for a well-known one
+        # that merely has the same name.)
+        if not (isinstance(t, type) and issubclass(t, BaseException)):
+            t, v = upgradeException(t, v)
         raise t(v)
 
     __call__ = render
